@@ -261,7 +261,7 @@ pub fn check_geo(prop: &str, g: &GeoCase, rep: &mut Report) {
             let det = e[0].dot(e[1].cross(e[2])).abs();
             let lens = e[0].length() * e[1].length() * e[2].length();
             let cond = lens / det.max(1e-300);
-            if !(det > 1e-4 * lens) || lens == 0. {
+            if !(det > 1e-6 * lens) || lens == 0. {
                 rep.count("ill_conditioned_arguments", 1);
                 return;
             }
@@ -361,6 +361,17 @@ fn gen_geo(r: &mut Rng) -> GeoCase {
             if structured {
                 // small integer coordinates: the canonical frames of the documentation among them
                 (0..4).map(|_| off + scale * DVec3::new(r.irange(-3, 3) as f64, r.irange(-3, 3) as f64, r.irange(-3, 3) as f64)).collect()
+            } else if r.below(5) == 0 {
+                // flat tetrahedra / apex close to the plane of the base (thin slivers, huge but decidable circumspheres)
+                let (a, b, c) = (point(r, scale, off), point(r, scale, off), point(r, scale, off));
+                let n = (b - a).cross(c - a);
+                let ext = (b - a).length().max((c - a).length());
+                let h = *r.pick(&[1e-2, 1e-3, 1e-4, 3e-5, 1e-5, 3e-6]);
+                let d = a + r.range(-0.2, 1.2) * (b - a) + r.range(-0.2, 1.2) * (c - a) + h * ext * n / n.length().max(1e-300) * if r.bool() { 1. } else { -1. };
+                let mut v = vec![a, b, c, d];
+                let k = r.below(4);
+                v.rotate_left(k);
+                v
             } else {
                 (0..4).map(|_| point(r, scale, off)).collect()
             }
@@ -402,7 +413,7 @@ fn gen_geo(r: &mut Rng) -> GeoCase {
 pub fn c19(a: &Args, rep: &mut Report) {
     rep.rule = "cases = argument tuples of the exported geometry helpers (intersect_planes, Plane::project_onto, Plane::project_onto_intersection, signed_volume_tet, signed_area_tri, Sphere::from_two/three/four_points, Sphere::extend/contains): random and structured (axis aligned, small integers, nearly dependent, large offset, scales 1e-6..1e6); distinct = distinct argument tuple hash; non-trivial = the arguments were well enough conditioned for the defining equations to be decided (ill-conditioned ones are counted separately and carry no verdict)".into();
     rep.assumptions = vec!["residual tolerances 256 u x scale x condition number".into()];
-    let n = ncases(a, 4_000_000, 100_000_000);
+    let n = ncases(a, 20_000_000, 200_000_000);
     let nw = n_workers() as u64;
     let hashes = std::sync::Mutex::new(std::collections::HashSet::<u64>::new());
     run_parallel(rep, nw, budget(a, 100., 600.), |wk, rep| {
